@@ -303,6 +303,26 @@ def gen_script(r: random.Random) -> dict[str, Any]:
         n = r.choice(names)
         dc = base[n] if r.random() < 0.6 else variant(base[n])
         calls.append({"name": n, "dist": dc, "indep": value_for(dc, 0.9)})
+    # +-inf offered to a NUMERIC distribution (an infinite categorical choice re-used under a numeric variant of the name) is
+    # invalid input outside the model: its internal values are rationals.  The real code hands it over like any other
+    # uncontained value; a huge finite number exercises the same path.
+    def fin(v: Any) -> Any:
+        if isinstance(v, (str, bytes)):
+            # a numeric-looking string ('1') is accepted by float() in to_internal_repr and handed over as the string; the
+            # model's tokens do not parse strings - same class of invalid input, replaced by a string float() rejects
+            try:
+                float(v)
+            except (TypeError, ValueError):
+                return v
+            return "x"
+        return (1e300 if v > 0 else -1e300) if isinstance(v, float) and math.isinf(v) else v
+
+    numeric = {c["name"] for c in calls if c["dist"]["cls"] != "CategoricalDistribution"} | {n for n, c in rel_space if c["cls"] != "CategoricalDistribution"}
+    fixed = [[n, fin(v) if n in numeric else v] for n, v in fixed]
+    rel_params = [[n, fin(v) if n in numeric else v] for n, v in rel_params]
+    for c in calls:
+        if c["dist"]["cls"] != "CategoricalDistribution":
+            c["indep"] = fin(c["indep"])
     return {"k": "script", "fixed": fixed, "rel_space": rel_space, "rel_params": rel_params, "calls": calls,
             "storage": r.choice(["mem", "mem", "sqlite"])}
 
@@ -906,7 +926,10 @@ def gen_run(r: random.Random, spec: dict[str, Any], quick: bool) -> dict[str, An
                     f = falsy_member(d, r) if r.random() < 0.35 else "<none>"
                     fx[p["name"]] = H11.values_for(d, r, 1)[0] if isinstance(f, str) and f == "<none>" else f
                     off = off_grid_in_range(d, r)
-                    if off is not None and r.random() < 0.2:
+                    if off is not None and r.random() < 0.2 and kind != "gp":
+                        # (not for GP: its discrete line search asserts that every observed value of a stepped parameter
+                        # lies on the grid, so an enqueued off-grid value - invalid input that optuna warns about - makes a
+                        # LATER trial die with an AssertionError; recorded as an observation in DESIGN.md, not C10's subject)
                         fx[p["name"]] = off
             if fx:
                 enq[str(t)] = fx
@@ -1081,6 +1104,7 @@ def main(chk: core.Check) -> int:
     chk.extra["samplers_not_available"] = ["CmaEsSampler (package cmaes is not installed)"]
     chk.assumptions += [
         "membership oracle: exact rationals; floats in [low, high]; stepped floats within max(1e-8 step, 2 ulp of max(|low|,|high|,high-low)) of a decimal grid point (what `_contains` tolerates / what a double can resolve); ints exact; log floats may leave [low, high] by <= 4 + 2|ln v| ulp (exp(log(.)) rounding, stated in the property)",
+        "+-inf offered to a numeric distribution (invalid input) is outside the suggest model, whose internal values are rationals; scripts replace it by +-1e300, which takes the same 'not contained' path",
         "an enqueued / PartialFixed value that is not contained in the distribution is returned as is (optuna warns, by design) and is excluded from the membership oracle; it must still win",
         "returned == cached == stored is Python ==, or both NaN (a categorical choice may read back as an equal choice of another type, e.g. True for 1)",
         "the sampler is an arbitrary parameter of the suggest model; the projections are tied function by function, the sampler internals upstream of them are covered only by the sampler runs",
